@@ -17,6 +17,10 @@ TRUSTED = [
     "Spec/RRule.lean (periodIndex, byOk, cand, sel, occ; written from the RFC text with calendar functions only) is the "
     "reference; its executable window enumeration is cross-checked against the plain definition `occ` on every run (rrule.occ)",
     "Easter in the spec is Spec.mjb (Meeus/Jones/Butcher), in the model the translated easter.easter (C19 proves them equal on 1583..4099)",
+    "proved for the model: every table entry vs the calendar; masks = dates for every year; start/until/count/whole seconds and strict "
+    "monotonicity for ALL rules and all seven frequencies; period day sets and advance of the calendar frequencies; the BY filter in calendar "
+    "terms; iter = Spec.occ for DAILY/WEEKLY/MONTHLY/YEARLY with BYMONTH/BYMONTHDAY/BYYEARDAY/plain BYDAY/BYHOUR/BYMINUTE/BYSECOND, defaults, "
+    "COUNT, UNTIL.  NOT proved (covered by correspondence + oracle only): exactness for HOURLY/MINUTELY/SECONDLY, BYWEEKNO, nth BYDAY, BYEASTER, BYSETPOS",
 ]
 ASSUMPTIONS = [
     "aware starts: the model carries tzinfo as an opaque tag; `until` is compared in the frame of dtstart.tzinfo "
@@ -364,7 +368,7 @@ def split_resp(resp):
 
 def correspondence(ctx):
     basecorr.run(ctx)
-    cases = list(WITNESS_CASES) + gen_cases(ctx, "corr", ctx.budget(500, 5000), malformed_rate=0.15)
+    cases = list(WITNESS_CASES) + gen_cases(ctx, "corr", ctx.budget(380, 5000), malformed_rate=0.15)
     reqs_c = ["rrule.construct " + wire(c) for c in cases]
     reqs_i = ["rrule.iter %s %d %d" % (wire(c), c["n"], FUEL[c["freq"]]) for c in cases]
     got_c = ctx.driver(reqs_c)
@@ -459,7 +463,7 @@ def oracle(ctx):
     cases = [dict(c) for c in WITNESS_CASES]
     cases += [c for c in getattr(ctx, "corr_bad", [])]          # inputs on which model and implementation differed
     evaluate(ctx, cases)
-    rng_cases = gen_cases(ctx, "oracle", ctx.budget(700, 9000))
+    rng_cases = gen_cases(ctx, "oracle", ctx.budget(550, 9000))
     for i in range(0, len(rng_cases), 500):
         evaluate(ctx, rng_cases[i:i + 500])
         if len(unknown_violations(ctx)) >= 3:
